@@ -13,7 +13,12 @@ META = {
              "refutes_stale_kept, refutes_destroy_leaves_index for the other two steps; classify_sound ties the decision to hydrex.go."),
     "note": ("Trusted: Lean kernel (propext, Classical.choice, Quot.sound); extract/c27.go; harness/c27.go + miscsdk.go. The catalog layer "
              "under Hydrex is modelled as a finite map per swamp (assumption, checked by the correspondence). Items with a nil pointer "
-             "(Go panic) and failures of the underlying catalog calls are not modelled."),
+             "(Go panic) are not modelled. LIMITS of the proved statement: names are ABSTRACT in the Lean model (index names, domains and keys are "
+             "numbers; that distinct strings give distinct swamps is the fact namesVerbatim + C20, and is exercised with case variants, non-ASCII, "
+             "180/200-byte, empty, '*' and '/'-containing names in the correspondence run); a FAILING catalog call in the middle of Save / Destroy "
+             "(Hydrex ignores or only logs every error: a save whose index request fails after the core data was written leaves the two out of step) "
+             "is outside the model and is only reached through invalid names, which Save / Destroy now refuse up front; close + reload of the swamps "
+             "is exercised (op idle: corpus case 1 and the thorough tier) but not part of the model, which treats a swamp as a map."),
     "design_ref": "§8 C27",
 }
 
@@ -22,8 +27,11 @@ FINDINGS = {
                                 "key leaves the old value (save d {k0:v0}; save d {k0:v1} reads back k0=v0)",
     "C27-stale-keys-kept": "hydrex.Save keeps keys that are no longer in the saved items",
     "C27-destroy-leaves-index": "hydrex.Destroy does not remove the domain from the index swamps of its keys",
-    "C27-invalid-key-save-ignored": "a Save that carries an empty key or a key containing '/' is refused as a whole and only logged: Hydrex.Save has no "
-                                    "error return, so the caller sees success while GetCoreData keeps the previous items",
+    "C27-invalid-key-save-ignored": "a Save that carries an empty key or a key containing '/' (or such an index name / domain) is refused as a whole and "
+                                    "only logged: Hydrex.Save has no error return, so the caller sees success while GetCoreData keeps the previous items",
+    "C27-hostile-name-half-saved": "a Save for a domain containing '/' stores NO core data (the 4-part core swamp name is refused by the gateway) but adds "
+                                   "the domain to the index swamp of every key: GetIndexData lists a domain that GetCoreData knows nothing about, and "
+                                   "neither Save nor Destroy can ever remove it",
     "C27-empty-key-save-ignored": "a Save whose items contain the empty key reports ok but stores nothing: the core CatalogSaveMany fails on the "
                                   "empty key and the gateway rejects the index request (swamp name with an empty part); GetCoreData stays empty",
     "C27-key-with-separator-not-indexed": "a Save whose items contain a key with '/' stores the core data but writes NO index entry of that Save "
@@ -34,6 +42,7 @@ FINDINGS = {
 
 
 _VALIDATES = False
+_VALIDATES_NAMES = False
 
 
 def _norm(tok):
@@ -45,6 +54,9 @@ def _norm(tok):
 
 
 def _hostile_id(toks):
+    if not _VALIDATES_NAMES and any(t.startswith("N") and (t == "Nx" or _norm(t[1:]) != t[1:]) for t in toks):
+        return "C27-hostile-name-half-saved"
+    toks = {t[1:] if t.startswith("N") else t for t in toks}
     if _VALIDATES and ("x" in toks or any(_norm(t) != t for t in toks)):
         return "C27-invalid-key-save-ignored"
     if "x" in toks:
@@ -60,15 +72,18 @@ def oracle(rep):
     spec, seen = {}, set()
     for op, line in zip(rep["ops"], rep["impl"]):
         f = op.split(" ")
+        if line.startswith("timeout"):
+            continue   # the rig did not answer in time (load): common.py re-runs such a case alone with a larger budget
         if line == "panic":
             return (None, "`%s` panicked" % op)
         if f[0] == "case":
             spec, seen = {}, set()
         elif f[0] == "save":
             spec[(f[1], f[2])] = {} if f[3] == "-" else dict(kv.split("=") for kv in f[3].split(","))
-            seen |= set(spec[(f[1], f[2])])
+            seen |= set(spec[(f[1], f[2])]) | {"N" + f[1], "N" + f[2]}
         elif f[0] == "destroy":
             spec[(f[1], f[2])] = {}
+            seen |= {"N" + f[1], "N" + f[2]}
         elif f[0] == "core":
             want = spec.get((f[1], f[2]), {})
             got = {} if line == "core -" else dict(kv.split("=") for kv in line.split(" ", 1)[1].split(","))
@@ -89,9 +104,10 @@ def spec_violated(rep):
 
 
 def run(ctx):
-    global _VALIDATES
+    global _VALIDATES, _VALIDATES_NAMES
     facts, _, _ = U.extract_facts(ctx)
     _VALIDATES = facts.get("validatesKeys") == "yes"
+    _VALIDATES_NAMES = facts.get("validatesNames") == "yes"
     K.lean_verdict(ctx)
     corrs = U.run_corr(ctx, "C27", facts)
     K.decide_standard(ctx, corrs, FINDINGS)
@@ -104,10 +120,10 @@ def run(ctx):
     samples = [{"ops": [c.ops[i] for i in cs], "impl": [c.impl[i] for i in cs if i < len(c.impl)]} for cs in c.cases[:2]]
     return K.finish(
         ctx, "proof",
-        rule=("cases = 2 corpus histories + random histories (8..25 mutations/reads, then a full dump of every core and index entry) over "
+        rule=("cases = 5 corpus histories + random histories (8..25 mutations/reads, then a full dump of every core and index entry) over "
               "three name pools: plain (2 index names x 3 domains x 5 keys), adversarial (case variants, non-ASCII, punctuation, 180/200-byte "
-              "names; every third case) and hostile (empty key, '*', 'a/b' next to 'a'; one case in twenty); 4 values; thorough tier "
-              "adds `idle` ops that let the swamps pass their 1 s idle timeout (close, flush, reload); saves pick each key with probability 2/5, one save in five repeats the "
+              "names; every third case) and hostile (empty, '*', 'a/b' next to 'a' as key, as domain and as index name; one case in twenty); 4 values; "
+              "corpus case 1 and the thorough tier have `idle` ops that let the swamps pass their 1 s idle timeout (close, flush, reload); saves pick each key with probability 2/5, one save in five repeats the "
               "previous items of that domain; every mutation is followed by a read of the touched core and of one index entry; a case "
               "is non-trivial when it has >= 3 ops; distinct = distinct op texts; replies sorted by key / domain"),
         samples=samples, evaluations=len(c.ops), distinct_nontrivial=K.distinct_cases(c),
